@@ -489,11 +489,19 @@ func (s *Storage) Close() error {
 	return nil
 }
 
+// GCSafePointPath returns the key (below the root path) of the cluster GC safe point.
+func GCSafePointPath() string {
+	return path.Join(gcPath, "safe_point")
+}
+
+// EncodeGCSafePoint returns the stored form of a cluster GC safe point.
+func EncodeGCSafePoint(safePoint uint64) string {
+	return strconv.FormatUint(safePoint, 16)
+}
+
 // SaveGCSafePoint saves new GC safe point to storage.
 func (s *Storage) SaveGCSafePoint(safePoint uint64) error {
-	key := path.Join(gcPath, "safe_point")
-	value := strconv.FormatUint(safePoint, 16)
-	return s.Save(key, value)
+	return s.Save(GCSafePointPath(), EncodeGCSafePoint(safePoint))
 }
 
 // LoadGCSafePoint loads current GC safe point from storage.
